@@ -46,12 +46,21 @@
    - C05_since / C05_since_chunking: the outputs cover [t0, F) and carry rhoZ of
      the unbounded since.
    - C05_unary: the point-wise operations, sample by sample.
-   What is still not proved is the composition: the update visitor that feeds
-   the outputs of one operation to the next (memo per update, constants),
-   predicates, since_timed (a composition of the above), +inf stamps. *)
+   Proved for the whole monitor (model DenseOnlineMon.v = the update visitor of
+   abstract_dense_time_online_interpreter.py / abstract_online_interpreter.py:
+   one operation per formula, stepped once per update through the memo,
+   predicate_operation.py, since_timed_operation.py, multiplication; compared
+   list for list with update() of StlDenseTimeOnlineSpecification on every
+   chunking of every case by harness/c05.py):
+   - C05_monitor / C05_monitor_chunking: see below.
+   Outside the proved fragment (modelled and compared only): sqrt and ln, a
+   constant under a temporal operator or as a since operand, two constant
+   operands, the IA-STL predicate kinds, signals that start after 0 (the open
+   known finding), +inf stamps inside the per-operation theorems. *)
 From Coq Require Import List ZArith Lia.
 From RV Require Import Val Syntax Rho Dense DenseSem DenseLaws ExtZ DenseMerge DenseMergeCorrect DenseOnlineMerge DenseOnlineMergeCorrect
   DenseSinceCorrect DenseOnlineFold DenseOnlineFoldCorrect DenseOnlineWin DenseOnlineWinCorrect.
+From RV Require DenseOnlineMon DenseOnlineMonCorrect.
 Import ListNotations.
 Local Open Scope Z_scope.
 
@@ -214,6 +223,62 @@ Theorem C05_unary :
       (forall t, den_opt (concat outs) t = option_map g (den_opt s t)).
 Proof. exact @unary_run_correct. Qed.
 Print Assumptions C05_unary.
+
+(* ---- the whole monitor: the update visitor that composes the operations (model DenseOnlineMon.v) ---- *)
+
+(* for every formula of the fragment `frag` (variables; abs, unary minus, exp; + - * / pow log, the six comparisons, and / or / implies / iff / xor
+   over two open operands or one open operand and a constant; not, once, historically, since and their bounded forms), signals that are strictly
+   increasing and start at 0, and ANY sequence of per-variable batches (a batch may begin with a repetition of the last sample already sent):
+   no update() raises, the concatenated outputs have non-decreasing stamps and denote rhoZ of the formula at every tick up to their last stamp,
+   which never lies beyond the last stamp of a variable of the formula *)
+Theorem C05_monitor :
+  forall (VS : Val) (AR : Arith VS) (pk : formula -> formula -> pkind),
+    (forall f g, pk f g = PStd) -> (forall l r : V, neg (a2 AR Sub l r) = a2 AR Sub r l) ->
+    forall (p : formula) (W : list dsig) (tend : Z) (envs : list (list dsig)),
+      DenseOnlineMonCorrect.frag p = true ->
+      (forall x, DenseOnlineMonCorrect.feedsI [] (map (fun env => nth x env []) envs) (nth x W [])) ->
+      (forall x, dsorted (nth x W [])) ->
+      (forall x, nth x W [] <> [] -> start (nth x W []) = 0) ->
+      exists d outs S,
+        DenseOnlineMon.mon_run AR pk p (DenseOnlineMon.mon_init p) envs = Some (d, map DenseOnlineMon.lift outs) /\
+        DenseOnlineMon.mon_run_fin AR pk p (DenseOnlineMon.mon_init p) envs = Some (d, outs) /\
+        length outs = length envs /\
+        DenseOnlineMonCorrect.feedsI [] outs S /\ dsorted S /\
+        wsorted (concat outs) /\
+        (forall a v, In (a, v) (concat outs) -> 0 <= a <= lastT (concat outs)) /\
+        (forall t, concat outs <> [] -> 0 <= t <= lastT (concat outs) -> den_opt (concat outs) t = Some (rhoZ AR pk W tend p t)) /\
+        (forall x, In x (DenseOnlineMonCorrect.fvars p) -> lastT (concat outs) <= lastT (nth x W [])).
+Proof. exact @DenseOnlineMonCorrect.mon_online_correct. Qed.
+Print Assumptions C05_monitor.
+
+Theorem C05_monitor_chunking :
+  forall (VS : Val) (AR : Arith VS) (pk : formula -> formula -> pkind),
+    (forall f g, pk f g = PStd) -> (forall l r : V, neg (a2 AR Sub l r) = a2 AR Sub r l) ->
+    forall (p : formula) (W : list dsig) (envs envs' : list (list dsig)),
+      DenseOnlineMonCorrect.frag p = true ->
+      (forall x, DenseOnlineMonCorrect.feedsI [] (map (fun env => nth x env []) envs) (nth x W [])) ->
+      (forall x, DenseOnlineMonCorrect.feedsI [] (map (fun env => nth x env []) envs') (nth x W [])) ->
+      (forall x, dsorted (nth x W [])) ->
+      (forall x, nth x W [] <> [] -> start (nth x W []) = 0) ->
+      exists d outs d' outs',
+        DenseOnlineMon.mon_run_fin AR pk p (DenseOnlineMon.mon_init p) envs = Some (d, outs) /\
+        DenseOnlineMon.mon_run_fin AR pk p (DenseOnlineMon.mon_init p) envs' = Some (d', outs') /\
+        (forall t, concat outs <> [] -> concat outs' <> [] ->
+           0 <= t <= Z.min (lastT (concat outs)) (lastT (concat outs')) ->
+           den_opt (concat outs) t = den_opt (concat outs') t).
+Proof. exact @DenseOnlineMonCorrect.mon_online_chunking. Qed.
+Print Assumptions C05_monitor_chunking.
+
+(* the hypotheses on the instance hold for the executable one, and a formula with a shared sub-formula is in the fragment *)
+Example C05_monitor_nonvacuous :
+  (forall l r : extz, @neg ExtZVal (a2 ExtZArith Sub l r) = a2 ExtZArith Sub r l) /\
+  let P : @formula ExtZVal := Pred CGeq (Var 0) (Const (Fin 1)) in
+  let p := And (OnceT 0 2 P) (Since (Not P) (Pred CLeq (A2 Add (Var 0) (Var 1)) (Const (Fin 3)))) in
+  DenseOnlineMonCorrect.frag p = true /\
+  option_map snd (DenseOnlineMon.mon_run_fin ExtZArith (fun _ _ => PStd) p (DenseOnlineMon.mon_init p)
+     [[[(0, Fin 3)]; [(0, Fin 1)]]; [[(2, Fin 0); (5, Fin 2)]; [(4, Fin 0)]]; [[(7, Fin 0)]; [(7, Fin 1)]]])
+  = Some [[]; [(0, Fin (-2)); (2, Fin 1)]; [(4, Fin (-1)); (5, Fin (-1))]].
+Proof. split; [exact DenseOnlineMonCorrect.extz_SubNeg|]. cbv zeta. split; vm_compute; reflexivity. Qed.
 
 (* two chunkings of the same signals (one sample at a time with a repeated boundary sample / everything at once): different
    sample lists per call, the same step function *)
